@@ -21,8 +21,17 @@ fn lru(rounds: usize, rng: &mut Lcg) {
         for _ in 0..12 {
             let k = rng.below(4) as u8;
             let v = rng.below(1000) as u32;
-            match rng.below(8) {
+            match rng.below(14) {
                 0 | 1 => assert_eq!(a.put(k, v), b.put(k, v)),
+                8 => assert_eq!(a.pop(&k), b.pop(&k)),
+                9 => assert_eq!(a.pop_entry(&k), b.pop_entry(&k)),
+                10 => {
+                    let (x, y) = (a.peek_mut(&k).map(|e| { *e += 1; *e }), b.peek_mut(&k).map(|e| { *e += 1; *e }));
+                    assert_eq!(x, y)
+                }
+                11 => assert_eq!(a.peek_lru().map(|(k, v)| (*k, *v)), b.peek_lru().map(|(k, v)| (*k, *v))),
+                12 => assert_eq!(a.push(k, v), b.push(k, v)),
+                13 => assert_eq!(*a.get_or_insert(k, || v), *b.get_or_insert(k, || v)),
                 2 => assert_eq!(a.get(&k).copied(), b.get(&k).copied()),
                 3 => {
                     let (x, y) = (a.get_mut(&k).map(|e| { *e += 1; *e }), b.get_mut(&k).map(|e| { *e += 1; *e }));
